@@ -1142,6 +1142,10 @@ public:
 		if (!d) {
 			return _d.insert(_d.length(), entry(key, value));
 		}
+		/* the element is changed in private data only */
+		if (!_d.detach() || !(d = get(key))) {
+			return false;
+		}
 		*d = value;
 		return true;
 	}
